@@ -29,6 +29,7 @@ type C08Case struct {
 	CutPct  int    `json:"cutpct"`  // where inside the response the fault lands: 0..100 (% of its bytes); -1 = before any byte (transport level)
 	Pending int    `json:"pending"` // calls pending when the fault lands
 	Ctx     string `json:"ctx"`     // none cancel deadline
+	Retry   bool   `json:"retry,omitempty"` // HTTP clients: created WithRetry (30 s backoff): the pending call is between two attempts when its context ends
 	Target  string `json:"target"`  // which exchange is hit: call (a tools/call answer) or stream (the legacy event stream / streamable listening stream itself)
 }
 
@@ -50,6 +51,12 @@ func genC08(t *rapid.T) C08Case {
 	c.Ctx = rapid.SampledFrom([]string{"none", "none", "cancel", "deadline"}).Draw(t, "ctx")
 	if (c.Fault == "stall" || c.Fault == "stallposts") && c.Ctx == "none" {
 		c.Ctx = "deadline" // a stall is only required to end when the caller set a limit
+	}
+	if c.Client != "stdio" && (c.Fault == "close" || c.Fault == "reset" || c.Fault == "refuse" || c.Fault == "http503" || c.Fault == "http500") && rapid.IntRange(0, 2).Draw(t, "retry") == 0 {
+		c.Retry = true
+		if c.Ctx == "none" {
+			c.Ctx = rapid.SampledFrom([]string{"cancel", "deadline"}).Draw(t, "retryctx")
+		}
 	}
 	return c
 }
@@ -100,7 +107,7 @@ func execC08(c C08Case) *Failure {
 		CountExcluded("C08/post-sse-body-not-closed")
 		c.Client = "streamable-json"
 	}
-	where := fmt.Sprintf("%s fault=%s at %d%% pending=%d ctx=%s", c.Client, c.Fault, c.CutPct, c.Pending, c.Ctx)
+	where := fmt.Sprintf("%s fault=%s at %d%% pending=%d ctx=%s retry=%v", c.Client, c.Fault, c.CutPct, c.Pending, c.Ctx, c.Retry)
 	goBefore := LibGoroutines()
 	fdBefore := FDCount()
 	var armed atomic.Bool
@@ -189,6 +196,9 @@ func execC08(c C08Case) *Failure {
 			return nil
 		}
 		opts := []mcp.ClientOption{mcp.WithHTTPReqHandler(br), mcp.WithClientLogger(nopLogger{})}
+		if c.Retry {
+			opts = append(opts, mcp.WithRetry(mcp.RetryConfig{MaxRetries: 3, InitialBackoff: 30 * time.Second, BackoffFactor: 1, MaxBackoff: 30 * time.Second}))
+		}
 		var hc *mcp.Client
 		var err error
 		if c.Client == "legacy" {
